@@ -399,4 +399,45 @@ def iterValid {V E R} : List (Doc V E R × Bool) → List (Item V E R)
   | (.value v none, _) :: ds => .ok v :: iterValid ds
   | (.value _ (some r), _) :: ds => .invalid r :: iterValid ds
 
+/-! ### the validating loops with their recorder made explicit (document isolation)
+
+The loops above abstract a document to its outcome. Here a document carries its traversal, and the
+recorder object is a loop variable: `stale` is whatever recorder the previous iteration left behind.
+The loop bodies of `from_multiple_with_options_valid` / `_validate` and of `ReadValidIter::next` /
+`ReadValidateIter::next` start with `let mut recorder = PathRecorder::new();`, which shadows it. -/
+
+/-- one document as the validating loops see it -/
+inductive DocR (α V E P : Type) where
+  | skip
+  | deErr (e : E)
+  /-- deserializes to `v` along the traversal `visit`; validation returns `report` (`none` = passes) -/
+  | value (v : V) (visit : Visit α) (report : Option P)
+
+/-- `PathRecorder::new()` -/
+def Recorder.new {α} : Recorder α := { current := [], map := [] }
+
+/-- `from_multiple_with_options_valid` / `_validate`; an error entry is `(report, locations)` -/
+def multiValidRec {α V E P} :
+    List (DocR α V E P) → Recorder α → List V → List (P × Map α) → Batch V E (P × Map α)
+  | [], _, values, errs => if errs.isEmpty then .ok values else .invalid errs
+  | .skip :: ds, stale, values, errs => multiValidRec ds stale values errs
+  | .deErr e :: _, _, _, _ => .err e
+  | .value v visit report :: ds, _, values, errs =>
+    -- `let mut recorder = PathRecorder::new(); T::deserialize(new_with_path_recorder(.., &mut recorder))`
+    let recorder := (record visit Recorder.new).2
+    match report with
+    | none => multiValidRec ds recorder (values ++ [v]) errs
+    | some p => multiValidRec ds recorder values (errs ++ [(p, recorder.map)])   -- `locations: recorder.map`
+
+/-- `read_with_options_valid` / `_validate`; an invalid item is `(report, locations)` -/
+def iterValidRec {α V E P} : List (DocR α V E P × Bool) → Recorder α → List (Item V E (P × Map α))
+  | [], _ => []
+  | (.skip, _) :: ds, stale => iterValidRec ds stale
+  | (.deErr e, recover) :: ds, stale => .err e :: (if recover then iterValidRec ds stale else [])
+  | (.value v visit report, _) :: ds, _ =>
+    let recorder := (record visit Recorder.new).2
+    match report with
+    | none => .ok v :: iterValidRec ds recorder
+    | some p => .invalid (p, recorder.map) :: iterValidRec ds recorder
+
 end SaphyrVerif.PathMap
